@@ -1,8 +1,8 @@
-(* C17 — Pooled buffers are released exactly once and pool budgets hold (partial: the
-   BucketedPool accounting and the ShardMatcher buffer life cycle; the full proxy
-   request — respSet goroutines, both retrieval strategies — is represented only by
-   its Close structure: facts from the source that a respSet is closed by the loser
-   tree callback AND by the deferred Close, each calling ShardMatcher.Close).
+(* C17 — Pooled buffers are released exactly once and pool budgets hold: the BucketedPool
+   accounting, the ShardMatcher buffer life cycle, and requests as interleavings of
+   "response set created / dropped unopened / closed from one of the call sites" events, the
+   call sites taken from the source (loser tree exhaustion and Close, the proxy's deferred
+   Close, the store gateway's error path; both retrieval strategies end in ShardMatcher.Close).
    Property theorems only; each is closed by [exact] of a lemma of Proofs/C17.v.
    Models WITH C17-fix.patch ([true]); [false] = before the fix. *)
 From Coq Require Import String.
@@ -49,11 +49,50 @@ Theorem C17_shard_pred : forall ops st, mrun true minit ops = Some st ->
 Proof. exact shard_case_pred. Qed.
 Print Assumptions C17_shard_pred.
 
-(* a whole request through the proxy: one matcher per store, each closed twice *)
-Theorem C17_proxy_pred : forall k sharded st, mrun true minit (proxy_ops k sharded) = Some st ->
-  pred_ok (CProxy k sharded (negb (nodup_n (mpool st)))) = true.
+(* Requests. For ANY number of concurrent requests on one store and any interleaving of their
+   events — a response set is created (its matcher takes a buffer), or created and dropped
+   because the store refused the stream, or closed from any of the call sites (loser tree on
+   exhaustion, loser tree Close, the proxy's deferred Close, the gateway's error path), each any
+   number of times — every reachable state has each buffer at most once in the pool and no
+   pooled buffer is still held by an open response set. *)
+Theorem C17_requests_single_put : forall es st, pxrun true pxinit es = Some st ->
+  NoDup (mpool (px_m st) ++ somes (held (px_m st))).
+Proof. exact px_single_put. Qed.
+Print Assumptions C17_requests_single_put.
+
+Theorem C17_proxy_pred : forall reqs k nfail sharded st,
+  pxrun true pxinit (px_requests reqs k nfail sharded 0 0) = Some st ->
+  pred_ok (CProxy reqs k nfail sharded (negb (nodup_n (mpool (px_m st))))) = true.
 Proof. exact proxy_case_pred. Qed.
 Print Assumptions C17_proxy_pred.
+
+(* before the fix, at the level of requests: exhausted in the loser tree, then the deferred Close *)
+Theorem C17_requests_unfixed_refuted :
+  option_map (fun st => mpool (px_m st))
+    (pxrun false pxinit [EvOpen 0 true 0; EvClose 0 0 CSExhausted; EvClose 0 0 CSDeferred]) = Some [0; 0] /\
+  option_map (fun st => mpool (px_m st))
+    (pxrun true pxinit [EvOpen 0 true 0; EvOpenFail 0 true 1; EvOpen 1 true 2; EvClose 0 0 CSExhausted; EvClose 1 0 CSErrorPath;
+                        EvClose 0 0 CSDeferred; EvClose 1 0 CSTreeClose; EvClose 1 0 CSDeferred]) = Some [2; 0].
+Proof. exact px_unfixed_refuted. Qed.
+Print Assumptions C17_requests_unfixed_refuted.
+
+(* Tie T for the request model: the close call sites of the loser tree, of ProxyStore.Series and
+   of BucketStore.Series, no Close in newAsyncRespSet (a refused stream drops the matcher), and
+   both retrieval strategies ending in shardMatcher.Close. *)
+Theorem C17_close_sites_in_source :
+  loserTreeCloseSites = ["Close: t.close(e.items)"; "moveNext: t.close(n.items)"]%string /\
+  proxySeriesCloseCalls = ["defer respSet.Close"]%string /\
+  bucketSeriesCloseCalls = ["defer blockClient.Close"; "call resp.Close"; "defer lt.Close"]%string /\
+  newAsyncRespSetCloseCalls = []%string /\
+  newAsyncRespSetOpenEvents =
+    [("call", "storeInfo"); ("call", "grpc_opentracing.ClientAddContextTags"); ("call", "context.WithCancel");
+     ("call", "shardInfo.Matcher"); ("call", "st.SupportsSharding"); ("if", "applySharding"); ("call", "st.String");
+     ("call", "level.Debug"); ("call", "level.Debug().Log"); ("endif", ""); ("call", "st.Series"); ("if", "err != nil");
+     ("call", "errors.Wrapf"); ("call", "cancel"); ("return", "nil, err"); ("endif", "")]%string /\
+  In "s.Close"%string loserTreeCloseCalls /\
+  In "l.shardMatcher.Close"%string lazyRespSetCloseCalls /\ In "l.shardMatcher.Close"%string eagerRespSetCloseCalls.
+Proof. exact close_sites_in_source. Qed.
+Print Assumptions C17_close_sites_in_source.
 
 (* before the fix every Close put the buffer again: closed twice (as ProxyStore.Series does,
    see C17_source_shape) the buffer is in the pool twice and the next two matchers share it
@@ -88,6 +127,6 @@ Example C17_nonvacuous :
   prun true [10; 20; 40; 80] 100 pinit [PGet 40; PGet 19; PGet 50; PPut 0; PGet 50; PPut 0; PPut 0]
     = [(true, 40, 40); (true, 20, 60); (false, 0, 60); (true, 0, 20); (true, 80, 100); (true, 0, 80); (true, 0, 0)] /\
   option_map mpool (mrun true minit [MNew true 0; MNew true 1; MClose 1; MClose 1; MNew true 1; MClose 0]) = Some [0] /\
-  option_map mpool (mrun true minit (proxy_ops 3 true)) = Some [2; 1; 0] /\
-  option_map mpool (mrun false minit (proxy_ops 2 true)) = Some [1; 1; 0; 0].
+  option_map (fun st => mpool (px_m st)) (pxrun true pxinit (px_requests 2 3 1 true 0 0)) = Some [5; 4; 2; 1] /\
+  option_map (fun st => mpool (px_m st)) (pxrun false pxinit (px_requests 1 2 0 true 0 0)) = Some [1; 1; 0; 0].
 Proof. repeat split; vm_compute; reflexivity. Qed.
